@@ -59,6 +59,7 @@ kfs_harness! {
         let src = kfs::user_source(kfs::D_WT, kfs::S_U0, kfs::S_A, 9, true);
         let from = kfs::path_of(kfs::D_WT, kfs::S_U0);
         let to = kfs::path_of(kfs::D_W, kfs::S_A);
+        kfs::begin_op(kfs::OP_RAW_UPDATE, 0, 0, 0);
         let r = insert_or_update(&from, &to);
         assert!(r.is_ok(), "KV-C05: insert_or_update succeeds without interference");
         assert!(kfs::bound(kfs::D_W, kfs::S_A) == src, "KV-C11: set publishes the supplied value");
@@ -94,6 +95,7 @@ kfs_harness! {
         let src = kfs::user_source(kfs::D_WT, kfs::S_U0, kfs::S_A, 9, true);
         let from = kfs::path_of(kfs::D_WT, kfs::S_U0);
         let to = kfs::path_of(kfs::D_W, kfs::S_A);
+        kfs::begin_op(kfs::OP_RAW_TOUCHINS, 0, 0, 0);
         let r = insert_or_touch(&from, &to);
         assert!(r.is_ok(), "KV-C05: insert_or_touch succeeds without interference");
         assert!(kfs::bound(kfs::D_WT, kfs::S_U0) == kfs::NONE, "KV-C11: a successful put consumes its source");
@@ -133,6 +135,7 @@ kfs_harness! {
             old = kfs::any_published(kfs::S_A, 50);
             oldi = kfs::install(kfs::D_W, kfs::S_A, old);
         }
+        kfs::begin_op(kfs::OP_RAW_TOUCH, 0, 0, 0);
         let r = touch(kfs::path_of(kfs::D_W, kfs::S_A));
         assert!(r.is_ok(), "KV-C05: touch succeeds without interference");
         let found = *r.as_ref().unwrap();
@@ -183,6 +186,7 @@ fn listing_check(has_a: bool, has_b: bool, has_app: bool, has_sub: bool, has_tem
     // a concurrent eviction may remove `a` between readdir and stat
     kfs::k().vanish_a_at_dstat = kani::any();
     let vanish = kfs::k().vanish_a_at_dstat;
+    kfs::begin_op(kfs::OP_RAW_COLLECT, 0, 0, 0);
     let r = collect_cached_files(&kfs::path_of(kfs::D_W, kfs::NONE));
     assert!(r.is_ok(), "KV-C05: listing succeeds, entries that vanish are skipped");
     let (files, count) = r.unwrap();
@@ -286,6 +290,7 @@ kfs_harness! {
         if a_gone { kfs::k().dir[kfs::D_W as usize].slot[kfs::S_A as usize] = kfs::NONE; }
         if b_gone { kfs::k().dir[kfs::D_W as usize].slot[kfs::S_B as usize] = kfs::NONE; }
         let before_s = kfs::k().now_s;
+        kfs::begin_op(kfs::OP_RAW_APPLY, 1, a_gone as i64, b_gone as i64);
         let r = apply_update(kfs::path_of(kfs::D_W, kfs::NONE), plan);
         assert!(r.is_ok(), "KV-C05: maintenance skips what has vanished");
         assert!(kfs::bound(kfs::D_W, kfs::S_A) == kfs::NONE, "KV-C07: every victim is deleted");
@@ -320,6 +325,7 @@ kfs_harness! {
         let a_gone: bool = kani::any();
         if a_gone { kfs::k().dir[kfs::D_W as usize].slot[kfs::S_A as usize] = kfs::NONE; }
         let before_s = kfs::k().now_s;
+        kfs::begin_op(kfs::OP_RAW_APPLY, 2, a_gone as i64, 0);
         let r = apply_update(kfs::path_of(kfs::D_W, kfs::NONE), plan);
         assert!(r.is_ok(), "KV-C05: maintenance skips what has vanished");
         let st = kfs::k();
@@ -339,6 +345,46 @@ kfs_harness! {
     }
 }
 
+fn apply_moveback_chain(a_gone_sym: bool) {
+    // plan: evict [ka]; move back [kb, kc] where kb has vanished: kc must still be re-queued
+    kfs::reset();
+    kfs::mkdir(kfs::D_W);
+    let na = kfs::any_published(kfs::S_A, 1);
+    let nb = kfs::any_published(kfs::S_B, 2);
+    let nc = kfs::any_published(kfs::S_C, 3);
+    kfs::install(kfs::D_W, kfs::S_A, na);
+    kfs::install(kfs::D_W, kfs::S_B, nb);
+    let ic = kfs::install(kfs::D_W, kfs::S_C, nc);
+    let plan = second_chance::Update { to_evict: vec![cached(kfs::S_A, &na)], to_move_back: vec![cached(kfs::S_B, &nb), cached(kfs::S_C, &nc)] };
+    let b_gone: bool = if a_gone_sym { kani::any() } else { true };
+    if b_gone { kfs::k().dir[kfs::D_W as usize].slot[kfs::S_B as usize] = kfs::NONE; }
+    let before_s = kfs::k().now_s;
+    kfs::begin_op(kfs::OP_RAW_APPLY, 3, b_gone as i64, 0);
+    let r = apply_update(kfs::path_of(kfs::D_W, kfs::NONE), plan);
+    assert!(r.is_ok(), "KV-C05: maintenance skips what has vanished");
+    let st = kfs::k();
+    assert!(kfs::bound(kfs::D_W, kfs::S_C) == ic, "KV-C07: reprieved files are not deleted");
+    let c = st.ino[ic as usize];
+    assert!(c.mt_s >= before_s - 1 && !kfs::accessed(&c),
+            "KV-C07: every reprieved file moves to the back of the queue with its read mark cleared, even when an earlier one vanished");
+    kani::cover!(b_gone, "an earlier reprieved file vanished");
+    std::mem::forget(r);
+}
+
+kfs_harness! {
+    #[kani::unwind(48)]
+    fn raw_apply_update_chain_sym() {
+        apply_moveback_chain(true);
+    }
+}
+
+kfs_harness! {
+    #[kani::unwind(48)]
+    fn raw_apply_update_chain_gone() {
+        apply_moveback_chain(false);
+    }
+}
+
 // collect + (capacity 0: every candidate is a victim, C08) + apply_update, on real code: the
 // end-to-end effect of `prune(dir, 0)` on a directory holding an application dot-file.
 fn prune_pieces_cap0(has_a: bool) {
@@ -352,6 +398,7 @@ fn prune_pieces_cap0(has_a: bool) {
     if has_a {
         kfs::install(kfs::D_W, kfs::S_A, kfs::any_published(kfs::S_A, 1));
     }
+    kfs::begin_op(kfs::OP_PRUNE_CAP0, 0, 0, 0);
     let r = collect_cached_files(&kfs::path_of(kfs::D_W, kfs::NONE));
     assert!(r.is_ok(), "KV-C05: listing succeeds");
     let (files, _count) = r.unwrap();
